@@ -474,6 +474,8 @@ def gen_units():
                              "(r.0 == r.1@.len() && (m.action.application_type == ApplicationType::Deferred ==> deep(r.1@) =~~= deep(a.1@).push(seq![m])) && "
                              "(m.action.application_type != ApplicationType::Deferred ==> deep(r.1@) =~~= deep(a.1@).update(a.1@.len() - 1, deep(a.1@).last().push(m))))",
                          ]}})})
+    u.append(raw("specs_builder", _read("specs_builder.rs")))
+    u.append(raw("lemma_bridge", _read("lemma_bridge.rs")))
     # C02 / C15: one branch of one step of `generate_step` (R15: the body of its third closure, lifted): the fold that
     # feeds the actions to the stack, the loop that closes the wrappers still open at the end of the step, the spawn
     # wrapping.  For every action list the parser can produce (step_acts_ok) no precondition of the stack functions is
@@ -746,15 +748,15 @@ OBLIGATIONS = {
             ("core", "ProcessExpr::replace_inner_exprs"), ("core", "ErrExpr::replace_inner_exprs"),
             ("core", "InitialExpr::replace_inner_exprs"), ("core", "ActionExpr::replace_inner_exprs"),
             ("gen", "JoinOutput::expand_process_expr"), ("gen", "JoinOutput::generate_def_and_step_streams")],
-    "C02": [("gen", "JoinOutput::generate_step_branch"), ("parse", "ActionGroup::parse_stream"), ("parse", "parse_until_suffix"), ("parse", "lemma_wrapper_frame"), ("builder", "ActionExprChainBuilder::build_from_parse_stream"), ("gen", "JoinOutput::wrap_last_step_stream"), ("gen", "JoinOutput::process_step_action_expr"),
+    "C02": [("gen", "lemma_split_balance"), ("gen", "lemma_accepted_chain_never_underflows"), ("gen", "JoinOutput::split_branch_steps"), ("gen", "JoinOutput::generate_step_branch"), ("parse", "ActionGroup::parse_stream"), ("parse", "parse_until_suffix"), ("parse", "lemma_wrapper_frame"), ("builder", "ActionExprChainBuilder::build_from_parse_stream"), ("gen", "JoinOutput::wrap_last_step_stream"), ("gen", "JoinOutput::process_step_action_expr"),
             ("gen", "lemma_step_toks1"), ("core", "Combinator::can_be_wrapper"), ("core", "ActionGroup::to_wrapper_action_expr"),
             ("core", "ProcessExpr::replace_inner_exprs"), ("core", "ErrExpr::replace_inner_exprs"),
             ("core", "InitialExpr::replace_inner_exprs"), ("core", "ActionExpr::replace_inner_exprs"),
             ("core", "ExprGroup::replace_inner_exprs")],
     # the `~` mark (Deferred) reaches the generator unchanged: suffix of parse_until, parse_stream, the wrapper placeholder
-    "C03": [("parse", "parse_until_suffix"), ("parse", "ActionGroup::parse_stream"), ("core", "ActionGroup::to_wrapper_action_expr"),
+    "C03": [("gen", "JoinOutput::split_branch_steps"), ("gen", "vec_last_push"), ("parse", "parse_until_suffix"), ("parse", "ActionGroup::parse_stream"), ("core", "ActionGroup::to_wrapper_action_expr"),
             ("core", "ActionGroup::new"), ("core", "ExprGroup::application_type"), ("core", "ExprGroup::new")],
-    "C06": [("parse", "parse_until_suffix"), ("parse", "ActionGroup::parse_stream"), ("core", "ActionGroup::to_wrapper_action_expr"),
+    "C06": [("gen", "JoinOutput::split_branch_steps"), ("parse", "parse_until_suffix"), ("parse", "ActionGroup::parse_stream"), ("core", "ActionGroup::to_wrapper_action_expr"),
             ("core", "ActionGroup::new"), ("core", "ExprGroup::application_type"), ("core", "ExprGroup::new")],
     "C04": [("gen", "JoinOutput::generate_results_transposer"), ("gen", "JoinOutput::active_step_branch_count"), ("gen", "JoinOutput::extract_results_tuple"), ("gen", "lemma_refs_toks"), ("gen", "lemma_filter_tokenizable"),
             ("gen", "JoinOutput::is_branch_active_in_step"), ("gen", "JoinOutput::generate_indexed_step_results_name"),
@@ -764,7 +766,7 @@ OBLIGATIONS = {
     "C05": [("gen", "JoinOutput::generate_results_transposer"), ("parse", "parse_until_suffix"), ("parse", "ActionGroup::parse_stream"),
             ("core", "ActionGroup::to_wrapper_action_expr"), ("core", "ActionGroup::new"), ("core", "ExprGroup::application_type")],
     "C12": [("builder", "ActionExprChainBuilder::build_from_parse_stream"), ("gen", "JoinOutput::branch_result_name"), ("gen", "JoinOutput::branch_result_pat")],
-    "C15": [("gen", "JoinOutput::generate_step_branch"), ("parse", "parse_until_suffix"), ("builder", "ActionExprChainBuilder::build_from_parse_stream"), ("builder", "ActionExprChain::append_member"),
+    "C15": [("gen", "lemma_split_balance"), ("gen", "lemma_accepted_chain_never_underflows"), ("gen", "JoinOutput::split_branch_steps"), ("gen", "JoinOutput::generate_step_branch"), ("parse", "parse_until_suffix"), ("builder", "ActionExprChainBuilder::build_from_parse_stream"), ("builder", "ActionExprChain::append_member"),
             ("builder", "lemma_append_facts"), ("builder", "lemma_balanced_depth"),
             ("gen", "JoinOutput::wrap_last_step_stream"), ("gen", "JoinOutput::process_step_action_expr"),
             ("gen", "JoinOutput::generate_def_and_step_streams"), ("gen", "JoinOutput::expand_process_expr"),
